@@ -82,3 +82,6 @@ def run(prog, chk):
     from ._shared import check_retest_after_wakeup, check_adjust_wakes_all
     check_retest_after_wakeup(prog, chk, "R3")
     check_adjust_wakes_all(prog, chk, "R3.adjust-wakes-all-senders")
+    # a send that waits for a stalled re-key must give up (raise) after clear_to_send_timeout: the deadline rule of C13
+    from .c13 import _deadlines_are_loop_invariant
+    _deadlines_are_loop_invariant(prog, chk)
